@@ -36,6 +36,8 @@ type LModule struct {
 	ModPath string // module line of go.mod
 	Files   []LFile
 	Loose   bool
+	// Header: bytes of comment lines in front of the module line of go.mod (a licence header)
+	Header int `json:",omitempty"`
 }
 
 // Layout is a whole configuration. Remote and local paths of modules coincide ("@BASE@/...").
@@ -167,7 +169,14 @@ func (l *Layout) materialise(base string) error {
 	}
 	for _, m := range l.Modules {
 		if !m.Loose {
-			if err := write(base+"/"+m.Dir+"/go.mod", "module "+m.ModPath+"\n\ngo 1.21\n"); err != nil {
+			hdr := ""
+			for len(hdr) < m.Header {
+				hdr += "// Copyright the authors. Use of this source code is governed by a licence.\n"
+			}
+			if len(hdr) > m.Header {
+				hdr = hdr[:max(m.Header-1, 0)] + "\n"
+			}
+			if err := write(base+"/"+m.Dir+"/go.mod", hdr+"module "+m.ModPath+"\n\ngo 1.21\n"); err != nil {
 				return err
 			}
 		}
@@ -350,6 +359,9 @@ func genLayout(t *rapid.T, nested bool) Layout {
 			m.Dir = l.Modules[0].Dir + rapid.SampledFrom([]string{"2", "x", "-old", "_"}).Draw(t, "siblingSuffix") + fmt.Sprint(i)
 		}
 		m.Loose = oneIn(t, 4, "loose")
+		if oneIn(t, 4, "gomodHeader") {
+			m.Header = rapid.SampledFrom([]int{80, 500, 1000, 1015, 1024, 1500, 4090, 5000}).Draw(t, "gomodHeaderBytes")
+		}
 		seen := map[string]bool{}
 		for j, k := 0, rapid.IntRange(1, 3).Draw(t, "nmfiles"); j < k; j++ {
 			f := genRelPath(t, 3)
